@@ -73,6 +73,12 @@ Step ==
             LET w == JudgeWrite(e) IN
             /\ fails' = IF w = "" THEN fails ELSE Append(fails, <<l, w>>)
             /\ UNCHANGED drift
+       [] e.op = "bigmut" ->
+            \* a large damaged file: only totality is judged
+            /\ fails' = IF e.marks # <<>> THEN Append(fails, <<l, "reader panicked or hung on a large damaged file">>)
+                        ELSE IF e.stop > e.nlines + 1 THEN Append(fails, <<l, "more Read calls than lines + 1 before EOF or an error">>)
+                        ELSE fails
+            /\ UNCHANGED drift
        [] e.op = "big" ->
             /\ fails' = IF e.want = e.got /\ e.bad = "" THEN fails
                         ELSE Append(fails, <<l, "large file: records read differ from the records written">>)
